@@ -141,6 +141,21 @@ def execute(case: dict) -> Outcome:
         log.add("links", cfg=cfg, links=sorted([list(k), list(v) if v else None] for k, v in links.items()))
         md = cfg.get("max_dist")
         cutoff = math.inf if md in (None, "inf") else float(md)
+        if cfg["method"] == "overlap":
+            # O2 also for droplets that are in no track at all: one that overlaps nothing in the
+            # previous frame (or has no previous frame) must START a track
+            for fi, fr in enumerate(frames):
+                for j, c in enumerate(fr["droplets"]):
+                    if (fi, j) in links:
+                        continue
+                    prev = frames[fi - 1]["droplets"] if fi else []
+                    if all(tri(dist(p["position"], c["position"]), p["radius"] + c["radius"],
+                               margin) == 1 for p in prev):
+                        violations.append(Violation(
+                            "C07.O2", f"frame {fi}: droplet {j} overlaps no droplet of the previous "
+                            f"frame but starts no track (it is in no track at all)",
+                            {**sig_cfg, "kind": "no_track_started"}))
+                        break
         pattern = []
         for f in range(1, len(frames)):
             prev, cur = frames[f - 1]["droplets"], frames[f]["droplets"]
